@@ -119,6 +119,10 @@ func worker() {
 	}
 	seed := seedFromEnv()
 	total := c.Cases(*fTier)
+	if c.MemLimitMB > 0 {
+		lim := uint64(c.MemLimitMB) << 20
+		_ = syscall.Setrlimit(syscall.RLIMIT_AS, &syscall.Rlimit{Cur: lim, Max: lim})
+	}
 	agg := fw.NewAgg()
 	var jf *os.File
 	if *fJournal != "" {
@@ -365,7 +369,13 @@ func coordinate() int {
 	wg.Wait()
 
 	// A worker that died or stalled: the case that was executing is re-run alone (up to 3 times).
+	confirmed := 0
 	for _, tr := range troubles {
+		if confirmed >= 2 {
+			// two stalls/crashes were already reproduced in isolation: the verdict is taken, do not spend the watchdog again
+			agg.Counters["worker_deaths_not_rerun_after_confirmed_ones"]++
+			continue
+		}
 		if tr.idx < 0 {
 			agg.Inconclusive = append(agg.Inconclusive, "worker failed before its first case: "+tr.log)
 			continue
@@ -392,6 +402,7 @@ func coordinate() int {
 			what = "no progress (stall)"
 		}
 		if reproduced == 3 {
+			confirmed++
 			agg.NViolations++
 			agg.Violations = append(agg.Violations, fw.ViolRec{Idx: tr.idx, Msg: what + " reproduced 3/3 in isolation", Detail: lastLog})
 		} else {
